@@ -59,7 +59,7 @@ def legD(ctx, q):
     runs = ["Net_q1.cfg", "Net_q2.cfg", "Net_q3.cfg"] if q else ["Net_t1.cfg", "Net_t2.cfg", "Net_t3.cfg", "Net_t4.cfg"]
     complete = True
     for cfg in runs:
-        r = ctx.design("Cache/Net.tla", cfg, workers=w, timeout=240 if q else 1500, heap="12g", deadlock_off=True)
+        r = ctx.design("Cache/Net.tla", cfg, workers=w, timeout=240 if q else 1500, heap="4g", deadlock_off=True)
         complete = complete and r.complete and not r.violated
     ctx.extra["exhaustive"] = complete
     # the invariants bite: broken designs must violate them
@@ -67,7 +67,7 @@ def legD(ctx, q):
     if not q:
         muts += [("Net_m_genreset_coh.cfg", "Coherent"), ("Net_m_restart.cfg", "Coherent")]
     for cfg, inv in muts:
-        ctx.design("Cache/Net.tla", cfg, workers=4, timeout=300, deadlock_off=True, expect_violation=inv, extra=["-noGenerateSpecTE"],
+        ctx.design("Cache/Net.tla", cfg, workers=4, timeout=300, heap="2g", deadlock_off=True, expect_violation=inv, extra=["-noGenerateSpecTE"],
                    note="self-test: broken design must violate " + inv)
     ctx.extra["design_answer"] = ("no interleaving of stores by different clients, rise and clear makes a server answer `uptodate` "
                                   "for stale L1 data as long as a server's generation counter is never reset (GenUnique); "
@@ -193,7 +193,7 @@ def judge(ctx, netcache, tag, t, kind, state):
     mod = "Cache/NetTrace.tla" if kind == "seq" else "Cache/NetHookTrace.tla"
     cfgS = "NetTrace.cfg" if kind == "seq" else "NetHookTrace.cfg"
     cfgP = "NetTraceP.cfg" if kind == "seq" else "NetHookTraceP.cfg"
-    rejS, dev = netcache.validate(ctx, mod, cfgS, t, tag + "-s", max_rejects=3)
+    rejS, dev = netcache.validate(ctx, mod, cfgS, t, tag + "-s", max_rejects=3, heap="3g")
     execs = netcache.executions(t)
     if dev:
         with state["lock"]:
@@ -212,7 +212,7 @@ def judge(ctx, netcache, tag, t, kind, state):
     if rejS:
         # mechanism layer disagrees: ask the property layer about the whole trace
         devlines = {line: sig for sig, line in dev}
-        rejP, _ = netcache.validate(ctx, mod, cfgP, t, tag + "-p", max_rejects=3)
+        rejP, _ = netcache.validate(ctx, mod, cfgP, t, tag + "-p", max_rejects=3, heap="3g")
         bad = set()
         with state["lock"]:
             for x in rejP:
